@@ -235,7 +235,18 @@ type dupProp struct {
 func (s *SpecValidator) validateDuplicatePropertyNames() *Result {
 	// definition can't declare a property that's already defined by one of its ancestors
 	res := pools.poolOfResults.BorrowResult()
-	for k, sch := range s.spec.Spec().Definitions {
+
+	// definitions are visited in a fixed order, so that the outcome does not depend
+	// on map iteration order when stopping at the first circular ancestry
+	definitions := s.spec.Spec().Definitions
+	names := make([]string, 0, len(definitions))
+	for k := range definitions {
+		names = append(names, k)
+	}
+	sort.Strings(names)
+
+	for _, k := range names {
+		sch := definitions[k]
 		if len(sch.AllOf) == 0 {
 			continue
 		}
@@ -571,8 +582,18 @@ func (s *SpecValidator) validateRequiredDefinitions() *Result {
 	// Each property listed in the required array must be defined in the properties of the model
 	res := pools.poolOfResults.BorrowResult()
 
+	// definitions are visited in a fixed order, so that the outcome does not depend
+	// on map iteration order when stopping at the first offending definition
+	definitions := s.spec.Spec().Definitions
+	names := make([]string, 0, len(definitions))
+	for d := range definitions {
+		names = append(names, d)
+	}
+	sort.Strings(names)
+
 DEFINITIONS:
-	for d, schema := range s.spec.Spec().Definitions {
+	for _, d := range names {
+		schema := definitions[d]
 		if schema.Required != nil { // Safeguard
 			for _, pn := range schema.Required {
 				red := s.validateRequiredProperties(pn, d, &schema) //#nosec
